@@ -891,33 +891,27 @@ impl StorageEngine {
                     if len == 0 {
                         Vec::new()
                     } else {
-                        let start_idx = if start < 0 { 
-                            (len as isize + start).max(0) as usize
-                        } else {
-                            start as usize
-                        };
+                        // Negative ranks count from the end. A range that lies entirely outside the
+                        // set, or whose start is after its stop, selects nothing in either direction.
+                        let len_i = len as isize;
+                        let first = if start < 0 { len_i.saturating_add(start).max(0) } else { start };
+                        let last = if stop < 0 { len_i.saturating_add(stop) } else { stop };
                         
-                        let stop_idx = if stop < 0 {
-                            (len as isize + stop).max(0) as usize
+                        if last < 0 || first >= len_i || first > last {
+                            Vec::new()
                         } else {
-                            stop as usize
-                        };
-                        
-                        if reverse {
-                            let real_start = len.saturating_sub(1).saturating_sub(stop_idx.min(len.saturating_sub(1)));
-                            let real_stop = len.saturating_sub(1).saturating_sub(start_idx.min(len.saturating_sub(1)));
+                            let start_idx = first as usize;
+                            let stop_idx = last.min(len_i - 1) as usize;
                             
-                            let range = skiplist.range_by_rank(real_start, real_stop);
-                            let mut items = range.items;
-                            items.reverse();
-                            items
-                        } else {
-                            if start_idx >= len || start_idx > stop_idx {
-                                Vec::new()
-                            } else {
-                                let start_idx = start_idx.min(len - 1);
-                                let stop_idx = stop_idx.min(len - 1);
+                            if reverse {
+                                let real_start = len - 1 - stop_idx;
+                                let real_stop = len - 1 - start_idx;
                                 
+                                let range = skiplist.range_by_rank(real_start, real_stop);
+                                let mut items = range.items;
+                                items.reverse();
+                                items
+                            } else {
                                 let range = skiplist.range_by_rank(start_idx, stop_idx);
                                 range.items
                             }
